@@ -25,7 +25,7 @@ NOT_APPLICABLE.update({
     'C07': 'not claimed: the only registry implementation in this repository is test code; the derive-generated async compress/decompress harnesses planned in DESIGN.md §7 were not built',
     'C17': 'sign/recover/verify consistency is 256-bit curve arithmetic (libsecp256k1 behind FFI, k256/p256/ed25519-dalek field arithmetic): out of reach for bit-blasting; the signature_format / VM glue harnesses planned in DESIGN.md §7 were not built',
     'C19': 'not claimed: the balance half was built (harness/incrate/vm/c19_balances.rs: initial_free_balances against an exact wide-integer reference for three transaction shapes) but gives CBMC no verdict within 900 s even with concrete asset ids: the function keeps its per-asset sums in a hard-wired BTreeMap<AssetId, Word> (32-byte keys; B-tree tables with 32/64-byte keys gave no verdict anywhere in this code base, DESIGN.md 13.2); the accept/reject half (check_common_part, ~45 rules) reaches itertools hash sets (K5) and its reference was not built',
-    'C20': 'not claimed: signature recovery is curve arithmetic (see C17), predicate verification is a whole-VM run; the glue harnesses planned in DESIGN.md §7 were not built',
+    'C20': 'not claimed: signature recovery is curve arithmetic (see C17) and Input::check_signature keeps its recovery cache in a HashMap (K5); predicate verification is a whole-VM run; the aggregation step finalize_check_predicate was built for arbitrary per-predicate outcomes (harness/incrate/vm/c20_predicates.rs: order independence, checked sum, estimation write-back by input index) but gives no verdict within 900 s with three or with two predicate inputs: it calls Chargeable::max_gas -> gas_used_by_inputs, whose HashSet<u16> witness de-duplication CBMC explores (K5) because the input variants read back from the heap-allocated Vec<Input> are not constants for it',
     'C27': 'not claimed: RuntimeBalances is a hashbrown map (K5) and the TR/TRO/MINT/BURN/SMO handlers need a recording InterpreterStorage; not built in the time available',
     'C30': 'not claimed: needs an InterpreterStorage implementation that records every access (RecStorage, DESIGN.md §7); not built in the time available',
     'C31': 'not claimed: whole-run equivalence of arbitrary transaction pairs is beyond bounded symbolic execution; the reduction to the initialisation step was built (harness/incrate/vm/c31_init.rs: the real init_predicate -> init_inner on a dirty interpreter versus a fresh one) but CBMC gives no verdict within 1200 s even for a fully concrete one-input transaction on a fresh interpreter with hashing and RuntimeBalances::to_vm stubbed (DESIGN.md 13.5); MemoryInstance::reset and zeroing on regrowth, the memory part of the mechanism, are decided under C23',
